@@ -144,7 +144,7 @@ fn chan_ids(c: &str) -> (ChannelId, ChannelId) {
     }
 }
 
-async fn install_channels(w: &mut World) {
+pub(super) async fn install_channels(w: &mut World) {
     let client_id = ClientId::default();
     w.fixture.init_active_ibc_client(&client_id, dummy_ibc_client_state(3)).await;
     let conn_id = ConnectionId::new(0);
